@@ -16,13 +16,16 @@ pub struct MarkerFiller {
     pub atom_choice: Vec<usize>,
     pub atom_pos: usize,
     pub is_function: bool,
+    /// Per `for` loop: 0 = `for (var i = 0; ...)`, 1 = `for (x = k; ...)` (assignment initialiser).
+    pub for_choice: Vec<usize>,
+    pub for_pos: usize,
 }
 
 pub const MARKER_ATOM_KINDS: usize = 4;
 
 impl MarkerFiller {
     pub fn new(is_function: bool, atom_choice: Vec<usize>) -> MarkerFiller {
-        MarkerFiller { next: 1, atom_choice, atom_pos: 0, is_function }
+        MarkerFiller { next: 1, atom_choice, atom_pos: 0, is_function, for_choice: Vec::new(), for_pos: 0 }
     }
     fn fresh(&mut self) -> usize {
         let k = self.next;
@@ -68,6 +71,15 @@ impl Filler for MarkerFiller {
     }
     fn for_header(&mut self) -> (Atom, Cond, Atom) {
         let k = self.fresh();
+        let form = self.for_choice.get(self.for_pos).copied().unwrap_or(0);
+        self.for_pos += 1;
+        if form == 1 {
+            let init = Atom::assign("x", &k.to_string()).with_idents(vec![("x", Role::Write)]);
+            let cond = Cond::new("x < n").with_reads(&["x", "n"]);
+            let step = Atom::new("x++", vec![Ev::Assign("x = x + 1".to_string())])
+                .with_idents(vec![("x", Role::Write)]);
+            return (init, cond, step);
+        }
         let v = format!("i{k}");
         let init = Atom::decl_var_init(&v, "0").with_idents(vec![(&v, Role::Decl)]);
         let cond = Cond::new(&format!("{v} < n")).with_reads(&[&v, "n"]);
@@ -77,17 +89,31 @@ impl Filler for MarkerFiller {
     }
 }
 
-/// Builds the marker program for a skeleton: `var x = 0;` prologue + instantiated skeleton.
-pub fn marker_def(skel: &[Sk], is_function: bool, atom_choice: Vec<usize>) -> Def {
+/// Builds the marker program for a skeleton. With `prologue` the body starts with `var x = 0;`;
+/// without it `x` is a parameter and the skeleton's first statement is the definition's first
+/// statement (a loop or branch may then open the entry block).
+pub fn marker_def(skel: &[Sk], is_function: bool, atom_choice: Vec<usize>, prologue: bool) -> Def {
+    marker_def_for(skel, is_function, atom_choice, prologue, Vec::new())
+}
+
+pub fn marker_def_for(
+    skel: &[Sk],
+    is_function: bool,
+    atom_choice: Vec<usize>,
+    prologue: bool,
+    for_choice: Vec<usize>,
+) -> Def {
     let mut filler = MarkerFiller::new(is_function, atom_choice);
-    let mut body = vec![Node::Atom(
-        Atom::decl_var_init("x", "0").with_idents(vec![("x", Role::Decl)]),
-    )];
+    filler.for_choice = for_choice;
+    let mut body = Vec::new();
+    if prologue {
+        body.push(Node::Atom(Atom::decl_var_init("x", "0").with_idents(vec![("x", Role::Decl)])));
+    }
     body.extend(instantiate(skel, &mut filler));
     Def {
         kind: if is_function { DefKind::Function } else { DefKind::Template },
         name: if is_function { "f".to_string() } else { "T".to_string() },
-        params: vec!["n".to_string()],
+        params: if prologue { vec!["n".to_string()] } else { vec!["n".to_string(), "x".to_string()] },
         body,
     }
 }
